@@ -80,18 +80,20 @@ impl<'a> GeneratorState<'a> {
             ExprType::Immediate(l) => {
                 match right {
                     ExprType::Immediate(r) => {
+                        // A result that does not fit is an error
+                        let fits = |v: Option<i32>| v.map(ExprType::Immediate).ok_or_else(|| self.compiler_state.syntax_error("Overflow in constant expression", pos));
                         match op {
-                            Operation::Add(_) => return Ok(ExprType::Immediate(l + r)),
-                            Operation::Sub(_) => return Ok(ExprType::Immediate(l - r)),
+                            Operation::Add(_) => return fits(l.checked_add(*r)),
+                            Operation::Sub(_) => return fits(l.checked_sub(*r)),
                             Operation::And(_) => return Ok(ExprType::Immediate(l & r)),
                             Operation::Or(_) => return Ok(ExprType::Immediate(l | r)),
                             Operation::Xor(_) => return Ok(ExprType::Immediate(l ^ r)),
-                            Operation::Mul(_) => return Ok(ExprType::Immediate(l * r)),
+                            Operation::Mul(_) => return fits(l.checked_mul(*r)),
                             Operation::Div(_) => {
                                 if *r == 0 {
                                     return Err(self.compiler_state.syntax_error("Division by zero", pos));
                                 }
-                                return Ok(ExprType::Immediate(l / r));
+                                return fits(l.checked_div(*r));
                             }
                             _ => { return Err(self.compiler_state.compiler_error("Arithmetics is partially implemented", pos)); },
                         } 
@@ -133,8 +135,8 @@ impl<'a> GeneratorState<'a> {
                 if let ExprType::Immediate(r) = right2 {
                     if v.var_type == VariableType::CharPtr && !*eight_bits && v.var_const {
                         match op {
-                            Operation::Add(_) => return Ok(ExprType::Absolute(variable.clone(), *eight_bits, *off + *r)),
-                            Operation::Sub(_) => return Ok(ExprType::Absolute(variable.clone(), *eight_bits, *off - *r)),
+                            Operation::Add(_) => return Ok(ExprType::Absolute(variable.clone(), *eight_bits, off.wrapping_add(*r))),
+                            Operation::Sub(_) => return Ok(ExprType::Absolute(variable.clone(), *eight_bits, off.wrapping_sub(*r))),
                             Operation::And(_) => if *r == 255 {
                                 if high_byte {
                                     return Ok(ExprType::Immediate(0));
@@ -344,9 +346,11 @@ impl<'a> GeneratorState<'a> {
             ExprType::Immediate(l) => {
                 match right {
                     ExprType::Immediate(r) => {
+                        // A shift by the width of an int or more is an error
+                        let fits = |v: Option<i32>| v.map(ExprType::Immediate).ok_or_else(|| self.compiler_state.syntax_error("Overflow in constant expression", pos));
                         match op {
-                            Operation::Brs(_) => return Ok(ExprType::Immediate(l >> r)),
-                            Operation::Bls(_) => return Ok(ExprType::Immediate(l << r)),
+                            Operation::Brs(_) => return fits(u32::try_from(*r).ok().and_then(|s| l.checked_shr(s))),
+                            Operation::Bls(_) => return fits(u32::try_from(*r).ok().and_then(|s| l.checked_shl(s))),
                             _ => unreachable!(),
                         } 
                     },
@@ -377,7 +381,7 @@ impl<'a> GeneratorState<'a> {
                                     self.acc_in_use = true;
                                     return Ok(ExprType::A(signed));
                                 }
-                                return Ok(ExprType::Absolute(varname.clone(), true, offset + v.size as i32));
+                                return Ok(ExprType::Absolute(varname.clone(), true, offset.wrapping_add(v.size as i32)));
                             }
                             return Err(self.compiler_state.syntax_error("Incorrect right value for right shift operation on short (constant 8 only supported)", pos));
                         },
@@ -747,7 +751,7 @@ impl<'a> GeneratorState<'a> {
     pub(crate) fn generate_neg(&mut self, expr: &Expr, pos: usize, high_byte: bool) -> Result<ExprType, Error>
     {
         match expr {
-            Expr::Integer(i) => Ok(ExprType::Immediate(-*i)),
+            Expr::Integer(i) => i.checked_neg().map(ExprType::Immediate).ok_or_else(|| self.compiler_state.syntax_error("Overflow in constant expression", pos)),
             _ => {
                 let left = ExprType::Immediate(0);
                 let right = self.generate_expr(expr, pos, high_byte, false)?;
